@@ -107,6 +107,14 @@ class Acct(db.Entity):
     hits = Required(int, default=0, optimistic=False)
     tick = Required(int, default=0, volatile=True)
     items = Set('Item')
+    # hybrid method / property inlined into queries; they read globals of this namespace (C05)
+    def rich(self):
+        return self.bal >= LIMIT
+    @property
+    def marked(self):
+        return self.note == MARK
+    def near(self, other):
+        return self.bal >= other and self.rate != LIMIT
 
 class Item(db.Entity):
     acct = Required(Acct)
@@ -122,7 +130,8 @@ class Tag(db.Entity):
 
 def build_bank(scratch, cache_size=None):
     db = orm.Database()
-    ns = {'db': db, 'Required': orm.Required, 'Optional': orm.Optional, 'Set': orm.Set, 'PrimaryKey': orm.PrimaryKey}
+    ns = {'db': db, 'Required': orm.Required, 'Optional': orm.Optional, 'Set': orm.Set, 'PrimaryKey': orm.PrimaryKey,
+          'LIMIT': 100, 'MARK': 'n1'}
     exec(BANK_SRC, ns)
     path = os.path.join(scratch, 'bank.sqlite')
     if cache_size:
